@@ -1,9 +1,5 @@
 package main
 
-func genPointIndex(repo string) (string, error) {
-	return "(* GENERATED placeholder *)\n", nil
-}
-
 func genCli(repo string) (string, error) {
 	return "(* GENERATED placeholder *)\n", nil
 }
